@@ -32,7 +32,7 @@ const (
 	f5 = "a failure string that is longer than the shortest outputs" // never occurs
 )
 
-var outs = []string{"all fine, E a", "x " + f1 + " detected", "y " + f2 + " value", f2 + " and\n" + f1 + " both", f4 + " no"}
+var outs = []string{"all fine, E a", "x " + f1 + " detected", "y " + f2 + " value", f2 + " and\n" + f1 + " both", f4 + " no", f1}
 
 var drvLists = [][]string{nil, {f1}, {f1, f2}, {f5, f4, f1}}
 var opLists = [][]string{nil, {f2}, {f3}}
@@ -62,10 +62,11 @@ type sess struct {
 	ol   int
 	stop bool
 	dup  bool // commands are named after their output: equal outputs come from equal inputs
+	mix  int  // 0: only the options of the property; 1: an unrelated (channel-level) option comes first; 2: it sits between them
 }
 
 func (s sess) String() string {
-	return fmt.Sprintf("%s asg=%v drv=%v op=%v stop=%v dup=%v", s.api, s.asg, drvLists[s.dl], opLists[s.ol], s.stop, s.dup)
+	return fmt.Sprintf("%s asg=%v drv=%v op=%v stop=%v dup=%v mix=%d", s.api, s.asg, drvLists[s.dl], opLists[s.ol], s.stop, s.dup, s.mix)
 }
 
 func runSession(w *sched.W, s sess, dir string) {
@@ -109,8 +110,14 @@ func runSession(w *sched.W, s sess, dir string) {
 			opts = append(opts, options.WithFailedWhenContains(drvLists[s.dl]))
 		}
 		var opo []util.Option
+		if s.mix == 1 {
+			opo = append(opo, opoptions.WithTimeoutOps(time.Second))
+		}
 		if opLists[s.ol] != nil {
 			opo = append(opo, opoptions.WithFailedWhenContains(opLists[s.ol]))
+		}
+		if s.mix == 2 {
+			opo = append(opo, opoptions.WithTimeoutOps(time.Second))
 		}
 		if s.stop {
 			opo = append(opo, opoptions.WithStopOnFailed())
@@ -296,10 +303,15 @@ func scenario(api string, n int) sched.Scenario {
 								if dup && (n < 2 || n > 3) {
 									continue
 								}
-								if r := w.Replaying(); r != nil && r.Case != (sess{api, asg, dl, ol, stop, dup}).String() {
-									continue
+								for mix := 0; mix < 3; mix++ {
+									if mix > 0 && (n > 2 || dup || (ol == 0 && !stop)) {
+										continue
+									}
+									if r := w.Replaying(); r != nil && r.Case != (sess{api, asg, dl, ol, stop, dup, mix}).String() {
+										continue
+									}
+									runSession(w, sess{api, append([]int{}, asg...), dl, ol, stop, dup, mix}, dir)
 								}
-								runSession(w, sess{api, append([]int{}, asg...), dl, ol, stop, dup}, dir)
 							}
 						}
 					}
@@ -336,7 +348,7 @@ func TestCheck(t *testing.T) {
 	sched.Main(t, sched.Check{
 		ID:          "C13",
 		Level:       "exploration",
-		Rule:        "exhaustive product: API (generic SendCommand/SendCommands/SendCommandsFromFile, network SendCommands/SendConfigs/SendConfig/SendConfigsFromFile) x command lists of length 1..4 (5 thorough) x per-command output in {clean, contains F1, contains F2, contains both, short with F4} x {distinct commands, equal commands for equal outputs (n=2,3)} x driver-level list {none,[F1],[F1,F2],[long never-occurring, F4, F1]} x operation-level list {none,[F2],[F3 never occurring]} x stop-on-failed (an operation with its own list is followed by the same commands without options); each cell is a real session over the CLI device model (which logs what it receives), 0 schedule deviations; oracle = reference rule of the property; distinct = distinct cells",
+		Rule:        "exhaustive product: API (generic SendCommand/SendCommands/SendCommandsFromFile, network SendCommands/SendConfigs/SendConfig/SendConfigsFromFile) x command lists of length 1..4 (5 thorough) x per-command output in {clean, contains F1, contains F2, contains both, short with F4, exactly F1} x {the operation's options alone, an unrelated channel-level option before them / between them (n<=2)} x {distinct commands, equal commands for equal outputs (n=2,3)} x driver-level list {none,[F1],[F1,F2],[long never-occurring, F4, F1]} x operation-level list {none,[F2],[F3 never occurring]} x stop-on-failed (an operation with its own list is followed by the same commands without options); each cell is a real session over the CLI device model (which logs what it receives), 0 schedule deviations; oracle = reference rule of the property; distinct = distinct cells",
 		Assumptions: []string{"no schedule dimension in the property: whole-buffer reads, default schedule"},
 		Scenarios:   scenarios,
 		Budget:      map[string]time.Duration{"quick": 4 * time.Minute, "thorough": 30 * time.Minute},
